@@ -117,14 +117,22 @@ func c18Units(tier string) []hx.Unit {
 	// slots older.  The newest block belongs to the slot after the one vouch's clock shows when it starts (the
 	// beacon node's clock is slightly ahead of vouch's): until the first clean run its events and lookups come
 	// before its slot by vouch's clock.
-	trueSlot := map[phase0.Root]phase0.Slot{roots[0]: 3 * slotsPerEpoch, roots[1]: 4 * slotsPerEpoch, roots[2]: 66*slotsPerEpoch + 1}
+	alignedSlot := map[phase0.Root]phase0.Slot{roots[0]: 3 * slotsPerEpoch, roots[1]: 4 * slotsPerEpoch, roots[2]: 66*slotsPerEpoch + 1}
+	// "late phase": vouch starts 400 ms before an epoch begins, so every clean run falls 400 ms before the end of an
+	// epoch; the two old blocks then sit in the last slot of the oldest epoch the first / the second run must keep
+	lateSlot := map[phase0.Root]phase0.Slot{roots[0]: 3*slotsPerEpoch - 1, roots[1]: 4*slotsPerEpoch - 1, roots[2]: 66 * slotsPerEpoch}
 	parents := map[phase0.Root]phase0.Root{roots[1]: roots[0], roots[2]: roots[1], roots[0]: root(9)}
 	nOps := 4*len(roots) + 1
 	var units []hx.Unit
-	for first := 0; first < nOps; first++ {
-		first := first
+	for variant := 0; variant < 2*nOps; variant++ {
+		first := variant % nOps
+		late := variant >= nOps
+		trueSlot, genesisOff, tag := alignedSlot, genesisOff, ""
+		if late {
+			trueSlot, genesisOff, tag = lateSlot, genesisOff+int64(400*time.Millisecond), "late-phase/"
+		}
 		st := &c18State{}
-		u := hx.Unit{Name: fmt.Sprintf("C18/first-op-%d/depth-%d", first, depth), Cfg: mc.Config{Fixed: true, Horizon: int64(40 * 15 * time.Minute)}, Bound: 0}
+		u := hx.Unit{Name: fmt.Sprintf("C18/%sfirst-op-%d/depth-%d", tag, first, depth), Cfg: mc.Config{Fixed: true, Horizon: int64(40 * 15 * time.Minute)}, Bound: 0}
 		u.Body = func() {
 			*st = c18State{}
 			ctx, cancel := mcontext.WithCancel(context.Background())
@@ -167,15 +175,20 @@ func c18Units(tier string) []hx.Unit {
 					st.log = append(st.log, "clean")
 					st.cln++
 					mc.Sleep(int64(15*time.Minute) + 1)
-					cur := ct.CurrentEpoch()
-					for r, s := range ref {
+					// the epoch by the virtual clock (not by vouch's chain time service)
+					cur := phase0.Epoch((mc.Now() - genesisOff) / (int64(slotsPerEpoch) * int64(slotDur)))
+					for _, r := range roots {
+						s, held := ref[r]
+						if !held {
+							continue
+						}
 						present := func() bool {
 							hp.fail = true
 							_, err := svc.BlockRootToSlot(ctx, r)
 							hp.fail = false
 							return err == nil
 						}()
-						old := cur > 64 && s < ct.FirstSlotOfEpoch(cur-64)
+						old := cur > 64 && s < phase0.Slot(uint64(cur-64)*slotsPerEpoch)
 						if !present && !old {
 							bad("clean-removed-recent-entry", "clean at epoch %d removed the entry for slot %d, which is inside the 64-epoch window", cur, s)
 						}
@@ -260,7 +273,8 @@ func c18CtrlUnit() hx.Unit {
 		defer cancel()
 		depLast := mc.Choose(2) == 1 // the dependent blocks sit in the last slot of their epoch
 		with9 := mc.Choose(2) == 1   // the block of slot 9 arrives
-		st.log = append(st.log, fmt.Sprintf("dependent-blocks-in-last-slot=%v block-of-slot-9=%v", depLast, with9))
+		early10 := mc.Choose(2) == 1 // the block of slot 10 is heard a second before vouch's clock reaches slot 10
+		st.log = append(st.log, fmt.Sprintf("dependent-blocks-in-last-slot=%v block-of-slot-9=%v block-of-slot-10-heard-early=%v", depLast, with9, early10))
 		hr := func(s phase0.Slot) phase0.Root { return root(byte(100 + s)) }
 		prevDep, curDep := root(1), root(2)
 		truth := map[phase0.Root]phase0.Slot{prevDep: 2, curDep: 6, hr(8): 8, hr(10): 10}
@@ -301,12 +315,19 @@ func c18CtrlUnit() hx.Unit {
 		must(err)
 		ev.handlers["block"] = append(ev.handlers["block"], ctrl.HandleBlockEvent) // vouch's main wires the block events to the controller as well
 		deliver := func(s phase0.Slot) {
+			_, there := truth[hr(s)]
+			if there && s == 10 && early10 {
+				mc.Sleep(ct.StartOfSlot(s).Sub(mc.Base).Nanoseconds() - int64(time.Second) - mc.Now())
+				ev.deliver("block", &apiv1.BlockEvent{Slot: s, Block: hr(s)})
+			}
 			mc.Sleep(ct.StartOfSlot(s).Sub(mc.Base).Nanoseconds() + int64(time.Second) - mc.Now())
-			if _, ok := truth[hr(s)]; !ok {
+			if !there {
 				return
 			}
 			hp.heads = []phase0.Root{hr(s)}
-			ev.deliver("block", &apiv1.BlockEvent{Slot: s, Block: hr(s)})
+			if !(s == 10 && early10) {
+				ev.deliver("block", &apiv1.BlockEvent{Slot: s, Block: hr(s)})
+			}
 			ev.deliver("head", &apiv1.HeadEvent{Slot: s, Block: hr(s), PreviousDutyDependentRoot: prevDep, CurrentDutyDependentRoot: curDep})
 		}
 		for s := phase0.Slot(8); s <= 10; s++ {
@@ -345,7 +366,7 @@ func init() {
 	hx.Register(&hx.Prop{
 		ID:    "C18",
 		Title: "A block root always maps to that block's slot",
-		Rule: "all operation sequences up to the depth bound (quick 4, thorough 6) over {block event, head event, lookup with working provider, lookup with failing provider} x 3 roots, each the parent of the next with missed slots in between (slots exactly on the retention boundary of the first and of the second clean run, and one slot ahead of vouch's clock at the start) and {clean run}, on the real cache service (started while the chain head moves from the second to the third block between requests) with the real scheduler and chain time on a virtual clock; compared with a reference map after every step; plus the real controller feeding the real cache (block events handed on, the cache as the controller's setter, a proposal delay so that the controller looks at the head before proposing; dependent blocks in or before the last slot of their epoch, the previous slot's block arriving or missing): afterwards the cache gives every block of the chain its own slot; " +
+		Rule: "all operation sequences up to the depth bound (quick 4, thorough 6) over {block event, head event, lookup with working provider, lookup with failing provider} x 3 roots, each the parent of the next with missed slots in between (slots exactly on the retention boundary of the first and of the second clean run, and one slot ahead of vouch's clock at the start; and the same started 400 ms before an epoch begins, the old blocks in the last slot of the oldest epoch a clean run must keep) and {clean run}, on the real cache service (started while the chain head moves from the second to the third block between requests) with the real scheduler and chain time on a virtual clock; compared with a reference map after every step; plus the real controller feeding the real cache (block events handed on, the cache as the controller's setter, a proposal delay so that the controller looks at the head before proposing; dependent blocks in or before the last slot of their epoch, the previous slot's block arriving or missing, the newest block heard on time or a second before vouch's clock reaches its slot): afterwards the cache gives every block of the chain its own slot; " +
 			"non-trivial = the sequence contains a lookup miss or a clean run; distinct = distinct (miss, clean, length) classes",
 		Assumptions:   []string{"single caller (overlap of lookups and events is C17)", "block events carry the block's true slot"},
 		Units:         c18Units,
